@@ -1,7 +1,9 @@
 package main
 
 import (
+	"bytes"
 	"fmt"
+	"reflect"
 	"strings"
 
 	cose "github.com/veraison/go-cose"
@@ -218,7 +220,17 @@ func runC19(r *Run, rng *Rng, thorough bool) {
 					if !replaced && ev.Claims != nil {
 						m := ev.VerifMessage()
 						c2, err := psa.DecodeClaimsFromCBOR(append([]byte{}, m.Payload...))
-						if err != nil {
+						if (err != nil || reflect.TypeOf(c2) != reflect.TypeOf(ev.Claims)) && ev.Claims.Validate() != nil {
+							// claims that do not validate and were signed without validation (reachable only by changing the
+							// attached object behind the Evidence's back, which is not one of the property's operations) may
+							// lack what the dispatcher needs to pick their type again — a profile-2 set without its profile
+							// claim reads back as profile 1, one naming an unregistered profile does not read back at all.
+							// The binding is then judged the other way round, as theorem
+							// C19.verified_claims_bound states it: the covered payload is the encoding of the attached claims.
+							if enc, eerr := psa.EncodeClaimsToCBOR(ev.Claims); eerr != nil || !bytes.Equal(enc, m.Payload) {
+								fails = append(fails, pend{"binding", fmt.Sprintf("step %d: Verify ok but the covered payload is neither the encoding of the attached claims nor decodes to them (%T attached, %T decoded)", i, ev.Claims, c2)})
+							}
+						} else if err != nil {
 							fails = append(fails, pend{"binding", fmt.Sprintf("step %d: Verify ok but the covered payload does not decode: %v", i, err)})
 						} else if g1, g2 := gettersOnly(observe(ev.Claims)), gettersOnly(observe(c2)); g1 != g2 {
 							fails = append(fails, pend{"binding", fmt.Sprintf("step %d: Verify ok but attached claims differ from the decoding of the covered payload:\n attached: %s\n payload:  %s", i, g1, g2)})
